@@ -67,6 +67,12 @@ fn main() {
                 specs.push(s);
             }
         }
+        if mode == "valid" && replay_spec.is_none() {
+            // one very large set (more than 256 handlers)
+            let name = format!("g{}", specs.len());
+            specs.push(vcore::treegen::big_spec(&name));
+            meta.push(serde_json::json!({ "skipped": 0, "big": true }));
+        }
         let mut src = String::new();
         for s in &specs {
             vcore::spec::Model::build(s).expect("generated spec must be collision-free");
